@@ -364,7 +364,6 @@ func (b Builder) buildHTTP(rule *builtRule, logger *AuthzLogger) []*hcm.HttpFilt
 
 	for _, provider := range uniqueProviders {
 		providerRules := rule.providerRules[provider]
-		providerShadowRules := rule.providerShadowRules[provider]
 
 		extauthz, err := getExtAuthz(b.extensions, []string{provider})
 		if err != nil {
@@ -389,19 +388,12 @@ func (b Builder) buildHTTP(rule *builtRule, logger *AuthzLogger) []*hcm.HttpFilt
 		//   - ext_authz checks for this metadata prefix and calls the authorization service
 		//   - ext_authz enforces the decision (allow/deny)
 		//
-		// - providerShadowRules (dry-run policies) → Rules with same metadata prefix
-		//   - RBAC evaluates and stores metadata with same policy name format
-		//   - ext_authz sees the metadata and triggers (limitation: dry-run CUSTOM policies still call ext_authz)
-		//   - TODO: Future improvement could use different prefix to distinguish dry-run from enforce
-		//
-		// Note: Both Rules and ShadowRules in RBAC can be evaluated simultaneously. For CUSTOM action,
-		// neither enforces - they only populate metadata for ext_authz to check.
+		// - dry-run CUSTOM policies (providerShadowRules) are not put into the filter: the only other slot,
+		//   `rules`, is ENFORCED by Envoy, and their action is DENY, so a dry-run CUSTOM policy would reject
+		//   every request it matches.
 		rbac := &rbachttp.RBAC{
 			ShadowRules:           providerRules,
 			ShadowRulesStatPrefix: authzmodel.RBACExtAuthzShadowRulesStatPrefix,
-		}
-		if providerShadowRules != nil && len(providerShadowRules.Policies) > 0 {
-			rbac.Rules = providerShadowRules
 		}
 
 		// Use provider-specific metadata matcher
@@ -476,7 +468,6 @@ func (b Builder) buildTCP(rule *builtRule, logger *AuthzLogger) []*listener.Filt
 
 	for _, provider := range uniqueProviders {
 		providerRules := rule.providerRules[provider]
-		providerShadowRules := rule.providerShadowRules[provider]
 
 		extauthz, err := getExtAuthz(b.extensions, []string{provider})
 		if err != nil {
@@ -499,14 +490,11 @@ func (b Builder) buildTCP(rule *builtRule, logger *AuthzLogger) []*listener.Filt
 		// - RBAC filter evaluates but doesn't enforce
 		// - Results stored in metadata for ext_authz to check
 		// - providerRules (enforce) → ShadowRules
-		// - providerShadowRules (dry-run) → Rules (see HTTP comment for limitation)
+		// - dry-run CUSTOM policies are not put into the (enforced) `rules` (see HTTP comment)
 		rbac := &rbactcp.RBAC{
 			ShadowRules:           providerRules,
 			StatPrefix:            authzmodel.RBACTCPFilterStatPrefix,
 			ShadowRulesStatPrefix: authzmodel.RBACExtAuthzShadowRulesStatPrefix,
-		}
-		if providerShadowRules != nil && len(providerShadowRules.Policies) > 0 {
-			rbac.Rules = providerShadowRules
 		}
 
 		// Use provider-specific metadata matcher
